@@ -66,7 +66,8 @@ Proof.
   - destruct (has_pragma a && has_content a) eqn:H; cbn [fst snd]; [|discriminate]. intros _. right.
     apply andb_true_iff in H as [H1 H2]. split; [rewrite has_pragma_set_content; exact H1|].
     unfold has_content in H2. apply existsb_exists in H2 as [kv [Hin Hk]]. unfold set_content.
-    apply in_map_iff. exists kv. split; [|exact Hin]. cbn beta. rewrite Hk. apply akey_eqb_eq in Hk. rewrite Hk. reflexivity.
+    apply in_map_iff. exists kv. split; [|exact Hin]. destruct kv as [k v]. cbn [fst] in *. rewrite Hk.
+    apply akey_eqb_eq in Hk. subst k. reflexivity.
 Qed.
 
 Lemma injected_declares : match injected enc with TEmpty _ n a => is_name s_meta n = true /\ declares a | _ => False end.
@@ -128,14 +129,14 @@ Proof.
         assert (N2 : noninj prest = map fst prest).
         { unfold noninj. clear -Hrest. induction prest as [|x l IH]; [reflexivity|]. inversion Hrest; subst.
           cbn [filter]. rewrite H1. cbn [negb map]. f_equal. apply IH. assumption. }
-        rewrite N0, N1, N2. cbn [app]. reflexivity.
+        rewrite N0, N1, N2. rewrite Ep. cbn [app map]. reflexivity.
     + pose proof (Q s (TEnd ns name) Hp Hh) as R. destruct (in_head s); destruct R as [R1 R2]; (split; [exact R1|]); eexists; (split; [left; reflexivity | exact R2]).
   - destruct (is_name s_meta name) eqn:Em.
     + pose proof (rewrite_meta_keys a) as K. destruct (rewrite_meta enc a) as [a' f]. cbn [fst] in K.
       pose proof (Q {| in_head := in_head s; found := found s || f; pending := pending s |} (TEmpty ns name a') Hp Hh) as R.
       cbn [in_head] in R. destruct (in_head s); destruct R as [R1 R2]; (split; [exact R1|]); exists (TEmpty ns name a');
         (split; [right; exists ns, name, a, a'; repeat split; auto | exact R2]).
-    + rewrite Hne. cbn [andb].
+    + apply negb_true_iff in Hne. rewrite Hne. cbn [andb].
       pose proof (Q s (TEmpty ns name a) Hp Hh) as R. destruct (in_head s); destruct R as [R1 R2]; (split; [exact R1|]); eexists; (split; [left; reflexivity | exact R2]).
   - pose proof (Q s (TComment s0) Hp Hh) as R. destruct (in_head s); destruct R as [R1 R2]; (split; [exact R1|]); eexists; (split; [left; reflexivity | exact R2]).
   - pose proof (Q s (TEntity s0) Hp Hh) as R. destruct (in_head s); destruct R as [R1 R2]; (split; [exact R1|]); eexists; (split; [left; reflexivity | exact R2]).
